@@ -7,8 +7,8 @@ import Nstd.Future.Ring
   has finished or is blocked).  Schedules are lists of thread ids; every interleaving of the real
   code under sequentially consistent atomics is a schedule of this system.
 
-  With `cfg.repaired = true` the model follows the REPAIRED code (fixes/future/000{1,2,3,4}-*.patch, fixes/sync/0001-*.patch:
-  `FastSignal::reset` re-signals; the retire path of `run` sets the enqueued signal; a terminating
+  With `cfg.repaired = true` the model follows the REPAIRED code (fixes/future/000{1,2,3,4,5}-*.patch, fixes/sync/0001-*.patch:
+  `FastSignal::reset` always clears the Signal and re-signals when `_state` is set again; the retire path of `run` sets the enqueued signal; a terminating
   worker sets it before leaving; `~ThreadPool` queues `_threadCount` terminate jobs; `Signal::set` broadcasts before it unlocks); with `false` the original code (negation witnesses of the defects).
 
   Simulated POSIX layer (assumed semantics, identical to harness/future/sched.cpp): mutex
@@ -276,8 +276,8 @@ def stepFrame (s : State) (t : Tid) (th : Thread) (fr : Frame) : State × List S
       | some p =>
         let old := fsState p fs
         let s' := setPool s (setFsState p fs 0)
-        (if old = 1 then
-            setThread s' t (th.cont (if s.cfg.repaired then [.sRstLock fs, .fRstLoad fs] else [.sRstLock fs]))
+        (if s.cfg.repaired then setThread s' t (th.cont [.sRstLock fs, .fRstLoad fs])   -- repaired (fix 0005): reset() always clears the Signal
+          else if old = 1 then setThread s' t (th.cont [.sRstLock fs])
           else setThread s' t (th.cont []), [opLine "xchg" s!"{fsName fs}.state" old])
   | .fRstLoad fs => match s.pool with       -- repaired code only: `if(Atomic::load(_state)) _signal.set();`
       | none => (withFault s "no pool", [])
